@@ -9,6 +9,7 @@
 //                                          the given order; both session keys are logged
 //   hsbad seed= id= c=<u32> pow=0          one real Node is offered candidate public value c
 // 32-bit quantities are logged as [hi16, lo16] (TLC integers are 32-bit signed).
+#include <memory>
 #include "common/ev.hpp"
 #include "common/vclock.hpp"
 #include "common/vrng.hpp"
@@ -95,13 +96,31 @@ int main(int argc, char** argv) {
                 if (ab) { oka = na.perform_handshake(nb.id(), nb.public_identity(), *wb); okb = nb.perform_handshake(na.id(), na.public_identity(), *wa); }
                 else    { okb = nb.perform_handshake(na.id(), na.public_identity(), *wa); oka = na.perform_handshake(nb.id(), nb.public_identity(), *wb); }
             }
+            std::unique_ptr<Node> nb2;
+            Node* pb = &nb;
+            if (c.i("rehs", 0) && oka && okb) {
+                // the session outlives a key rotation at A, B restarts with the same identity, both handshake again:
+                // having accepted each other's handshake they must hold one key again
+                vclock::advance_s(c.i("rotwait", 301));
+                na.tick();
+                nb2 = std::make_unique<Node>(peer_id(c.i("idb")), cfg(u32(c, "seedb"), pow));
+                pb = nb2.get();
+                const auto wa2 = na.generate_handshake_work(pb->id());
+                const auto wb2 = pb->generate_handshake_work(na.id());
+                oka = okb = false;
+                if (wa2 && wb2) {
+                    if (ab) { oka = na.perform_handshake(pb->id(), pb->public_identity(), *wb2); okb = pb->perform_handshake(na.id(), na.public_identity(), *wa2); }
+                    else    { okb = pb->perform_handshake(na.id(), na.public_identity(), *wa2); oka = na.perform_handshake(pb->id(), pb->public_identity(), *wb2); }
+                }
+            }
+            Node& nbr = *pb;
             ev::Ev e("hs");
-            e.i("seeda", u32(c, "seeda") & 0x7fffffff).i("ida", c.i("ida")).i("idb", c.i("idb")).s("order", ab ? "ab" : "ba").i("pow", pow)
+            e.i("rehs", c.i("rehs", 0)).i("seeda", u32(c, "seeda") & 0x7fffffff).i("ida", c.i("ida")).i("idb", c.i("idb")).s("order", ab ? "ab" : "ba").i("pow", pow)
                 .b("work", wa.has_value() && wb.has_value())
-                .raw("sca", limbs(test::NodeTestAccess::scalar(na))).raw("scb", limbs(test::NodeTestAccess::scalar(nb)))
-                .raw("puba", limbs(na.public_identity())).raw("pubb", limbs(nb.public_identity())).b("oka", oka).b("okb", okb);
-            key_field(e, "keya", na.session_key(nb.id()));
-            key_field(e, "keyb", nb.session_key(na.id()));
+                .raw("sca", limbs(test::NodeTestAccess::scalar(na))).raw("scb", limbs(test::NodeTestAccess::scalar(nbr)))
+                .raw("puba", limbs(na.public_identity())).raw("pubb", limbs(nbr.public_identity())).b("oka", oka).b("okb", okb);
+            key_field(e, "keya", na.session_key(nbr.id()));
+            key_field(e, "keyb", nbr.session_key(na.id()));
             e.emit();
         } else if (c.op == "hsbad") {
             const int pow = static_cast<int>(c.i("pow", 0));
